@@ -12,6 +12,7 @@ import Model.RuleCodec
 import Model.Prefilter
 import Model.MongoMig
 import Model.Conc
+import Model.StorageCodec
 /-!
 # `vaktdrv`: one case per line in, one result per line out
 -/
@@ -30,6 +31,49 @@ def showUids (ps : List Policy) : String := showCounted (ps.map (fun p => showVa
 
 def showPieces (ps : List Piece) : String :=
   showCounted (ps.map fun | .lit l => "lit " ++ showStr l | .seg s => "seg " ++ showStr s)
+
+
+/-! ## storage codecs: rows as values -/
+open Vakt.StorageCodec in
+def elemRowVal (r : ElemRow) : PyVal :=
+  .list [r.json.getD .none, (r.str.map PyVal.str).getD .none, (r.regex.map PyVal.str).getD .none]
+
+open Vakt.StorageCodec in
+def rowVal (r : SqlRow) : PyVal :=
+  .dict [("uid".toList, r.uid), ("type".toList, r.typ), ("description".toList, r.description),
+         ("effect".toList, .bool r.effect), ("context".toList, r.context),
+         ("subjects".toList, .list (r.subjects.map elemRowVal)), ("resources".toList, .list (r.resources.map elemRowVal)),
+         ("actions".toList, .list (r.actions.map elemRowVal))]
+
+open Vakt.StorageCodec in
+def elemRowOfVal : PyVal → Option ElemRow
+  | .list [j, s, r] =>
+    let j' := match j with | .none => Option.none | v => some v
+    match s, r with
+    | .none, .none => some { json := j', str := Option.none, regex := Option.none }
+    | .str x, .none => some { json := j', str := some x, regex := Option.none }
+    | .str x, .str y => some { json := j', str := some x, regex := some y }
+    | .none, .str y => some { json := j', str := Option.none, regex := some y }
+    | _, _ => Option.none
+  | _ => Option.none
+
+open Vakt.StorageCodec in
+def rowOfVal : PyVal → Option SqlRow
+  | .dict kvs => do
+    let g := fun (k : String) => PyVal.lookup k.toList kvs
+    let uid ← g "uid"
+    let typ ← g "type"
+    let desc ← g "description"
+    let eff ← (match g "effect" with | some (.bool b) => some b | _ => Option.none)
+    let ctx ← g "context"
+    let rows := fun (k : String) => match g k with
+      | some (.list xs) => Vakt.RuleCodec.mapOpt elemRowOfVal xs
+      | _ => Option.none
+    let s ← rows "subjects"
+    let r ← rows "resources"
+    let a ← rows "actions"
+    pure { uid := uid, typ := typ, description := desc, effect := eff, context := ctx, subjects := s, resources := r, actions := a }
+  | _ => Option.none
 
 def pStoreAns : P StoreAns
   | "AR" :: ts => some (.raises, ts)
@@ -290,6 +334,55 @@ def handle (toks : List String) : Option String :=
     let p ← full (pPolicy ts)
     if !(Vakt.RuleCodec.Policy.wf p) then pure "unmodelled" else
     pure ("ok " ++ showVal (Vakt.canon (.dict (Vakt.RuleCodec.encPolicy p .none))))
+  | "MONGODOC" :: ts => do
+    let p ← full (pPolicy ts)
+    if !(Vakt.RuleCodec.Policy.wf p && Vakt.StorageCodec.compileModelled p) then pure "unmodelled" else
+    match Vakt.StorageCodec.mongoDoc Vakt.StorageCodec.modelCompile p with
+    | some d => pure ("ok " ++ showVal (Vakt.canon (.dict d)))
+    | Option.none => pure "refused"
+  | "MONGOUPD" :: ts => do
+    let (p0, ts) ← pPolicy ts
+    let p ← full (pPolicy ts)
+    if !(Vakt.RuleCodec.Policy.wf p && Vakt.StorageCodec.compileModelled p && Vakt.RuleCodec.Policy.wf p0 &&
+         Vakt.StorageCodec.compileModelled p0) then pure "unmodelled" else
+    match Vakt.StorageCodec.mongoDoc Vakt.StorageCodec.modelCompile p0, Vakt.StorageCodec.mongoDoc Vakt.StorageCodec.modelCompile p with
+    | some d0, some d => pure ("ok " ++ showVal (Vakt.canon (.dict (Vakt.StorageCodec.setAll d d0))))
+    | _, _ => pure "refused"
+  | "MONGOREAD" :: ts => do
+    let (st, ts) ← pChar ts
+    let (et, ts) ← pChar ts
+    let v ← full (pVal ts)
+    match v with
+    | .dict d =>
+      (match Vakt.StorageCodec.fromMongoDoc 64 st et d with
+       | some p => pure ("ok " ++ showPolicy p)
+       | Option.none => pure "none")
+    | _ => none
+  | "SQLROW" :: ts => do
+    let p ← full (pPolicy ts)
+    if !(Vakt.RuleCodec.Policy.wf p && Vakt.StorageCodec.compileModelled p) then pure "unmodelled" else
+    if (Vakt.StorageCodec.storedUid p.uid).isNone then pure "unmodelled" else
+    match Vakt.StorageCodec.toRow Vakt.StorageCodec.modelCompile p with
+    | some r => pure ("ok " ++ showVal (Vakt.canon (rowVal r)))
+    | Option.none => pure "refused"
+  | "SQLREAD" :: ts => do
+    let (st, ts) ← pChar ts
+    let (et, ts) ← pChar ts
+    let v ← full (pVal ts)
+    match rowOfVal v with
+    | some r =>
+      (match Vakt.StorageCodec.toPolicy 64 st et r with
+       | some p => pure ("ok " ++ showPolicy p)
+       | Option.none => pure "none")
+    | Option.none => none
+  | "COMPILE" :: ts => do
+    let (s, ts) ← pChar ts
+    let (t, ts) ← pChar ts
+    let e ← full (pStr ts)
+    match Vakt.StorageCodec.compileText s t e with
+    | .text x => pure ("ok " ++ showStr x)
+    | .raises => pure "raises"
+    | .unmodelled => pure "unmodelled"
   | "DECODE" :: ts => do
     let v ← full (pVal ts)
     match v with
